@@ -198,7 +198,17 @@ def run(repo: Repo, rep: Report, tier: str) -> None:
     # ---------------------------------------------------------------- R12.3 verbatim copy
     from sa.flatten import flatten as _fl12
 
-    emit = _fl12(repo.func("emitters.core_emitter:CoreEmitter.emit"))  # reading the packaged file may live in a helper
+    emit0 = repo.func("emitters.core_emitter:CoreEmitter.emit")
+    # the copy loop may have been moved into a helper of the emitter (`self._copy_runtime_files(core_dir)`): the function that holds the
+    # loop over RUNTIME_FILES is examined (it must be a function of this module that emit reaches)
+    holders = [f for f in emit0.module.functions.values() if any(isinstance(n, ast.For) and "RUNTIME_FILES" in norm(n.iter) for n in own_nodes(f.node))]
+    holder = emit0
+    if holders and emit0 not in holders:
+        called = {c.func.attr if isinstance(c.func, ast.Attribute) else c.func.id if isinstance(c.func, ast.Name) else None for c in calls_in(emit0.node)}
+        holders = [f for f in holders if f.name in called]
+        if len(holders) == 1:
+            holder = holders[0]
+    emit = _fl12(holder)  # reading the packaged file may live in a helper
     loops = [n for n in own_nodes(emit.node) if isinstance(n, ast.For) and "RUNTIME_FILES" in norm(n.iter)]
     rep.require(len(loops) == 1, f"R12.3: expected exactly one loop over RUNTIME_FILES in CoreEmitter.emit, found {len(loops)}")
     for lp in loops:
